@@ -840,7 +840,6 @@ func ruleC15R6(w *World, r *Report) {
 	}
 }
 
-
 // quoteEscapeTable: quoteSingleEscape followed by interpretation over its finite table.
 func (w *World) quoteEscapeTable(r *Report, rule string, fd *ast.FuncDecl) {
 	fn := w.fn(w.Tok, "quoteSingleEscape")
@@ -934,7 +933,6 @@ func (w *World) quoteEscapeTable(r *Report, rule string, fd *ast.FuncDecl) {
 		r.undecided(rule, "quoteSingleEscape (table)", w.pos(fd.Pos()), undec)
 	}
 }
-
 
 // withOwnHelpers: fn and the methods it calls on its own receiver (transitively, a few levels), except the named ones: a
 // scan that was split off into a helper (identPartEnd, skipIdentParts) still belongs to the function that asks for it.
